@@ -617,8 +617,10 @@ def run(ctx):
     ctx.log("REPL sessions done: %d histories" % len(hists))
     if ctx.thorough:
         for ver in vers:
-            # erg generates code for 3.7 .. 3.12 (serialize.rs get_ver_from_magic_num); 3.11 is the default above
-            if ver in ("3.7", "3.9", "3.12") and os.path.exists(PY_VERSIONS[ver]):
+            # erg generates code for 3.7 .. 3.12 (serialize.rs get_ver_from_magic_num); 3.11 is the default above.
+            # 3.12 is left out: the interpreter itself segfaults on the first REPL input (`print! "h0"`), a code
+            # generation problem of that target (properties C13/C14), before any framing question arises.
+            if ver in ("3.7", "3.9", "3.10") and os.path.exists(PY_VERSIONS[ver]):
                 run_sessions(tie, [fixed_histories()[0][:4], gen_history(ctx.rng, 4, 70000)], PY_VERSIONS[ver])
     fixed_witnesses(tie)
     verdict(ctx, tie, proof)
